@@ -24,11 +24,14 @@ func (node *HusbandNode) Individual() *IndividualNode {
 
 	n := node.family.document.NodeByPointer(valueToPointer(node.value))
 
-	if IsNil(n) {
+	// The pointer may be dangling or refer to a record that is not an
+	// individual. Neither is an individual.
+	individual, ok := n.(*IndividualNode)
+	if !ok {
 		return nil
 	}
 
-	return n.(*IndividualNode)
+	return individual
 }
 
 func (node *HusbandNode) Similarity(other *HusbandNode, options SimilarityOptions) float64 {
